@@ -35,13 +35,15 @@ type EpisodeResult struct {
 	Nontrivial   bool        `json:"nontrivial,omitempty"`
 	Evals        int         `json:"evals,omitempty"` // executions performed inside the episode (sweeps)
 	Trace        []string    `json:"trace,omitempty"`
+	Recycle      bool        `json:"recycle,omitempty"` // the worker must be replaced (the race detector reports each race once per process)
+	RaceText     string      `json:"raceText,omitempty"`
 }
 
 // runners maps a property to its episode logic (workload execution + oracle).
 var runners = map[string]func(e *Engine, res *EpisodeResult){}
 
 // RunPlan executes one plan inside a fresh synctest bubble.
-func RunPlan(t *testing.T, p *plan.Plan, trace bool) (res *EpisodeResult) {
+func RunPlan(t *testing.T, p *plan.Plan, trace bool, emitEarly func(*EpisodeResult)) (res *EpisodeResult) {
 	res = &EpisodeResult{Prop: p.Prop, Seed: p.Seed, Shape: p.Shape}
 	run, ok := runners[p.Prop]
 	if !ok {
@@ -80,8 +82,36 @@ func RunPlan(t *testing.T, p *plan.Plan, trace bool) (res *EpisodeResult) {
 			if trace {
 				res.Trace = e.Trace()
 			}
+			// A race report makes the testing package fail the bubble's test and
+			// end this process as soon as the bubble function returns, so the
+			// result has to leave from in here.
+			if RaceBuild && collectRaces(p, res) && emitEarly != nil {
+				emitEarly(res)
+			}
 		}()
 		run(e, res)
 	})
 	return
+}
+
+// collectRaces turns new race reports into violations (both accesses in tengo)
+// or into a simulator fault (anything else). Reports whether there were any.
+func collectRaces(p *plan.Plan, res *EpisodeResult) bool {
+	any := false
+	{
+		for _, rr := range newRaceReports() {
+			any = true
+			res.Recycle = true
+			if res.RaceText == "" {
+				res.RaceText = rr.Text
+			}
+			if rr.Tengo {
+				res.Violations = append(res.Violations, Violation{Oracle: p.Prop + ".race:" + rr.Identity,
+					Detail: "unsynchronised conflicting accesses by two simulated threads: " + rr.Identity})
+			} else if res.Fatal == "" {
+				res.Fatal = "race report outside tengo (simulator defect): " + rr.Identity + "\n" + rr.Text
+			}
+		}
+	}
+	return any
 }
